@@ -128,8 +128,8 @@ theorem len_other (v : Val) (rest : List Val) (h1 : ∀ r l, v ≠ .list r l) (h
   cases v <;> first | rfl | (exfalso; exact h1 _ _ rfl) | (exfalso; exact h2 _ rfl)
 theorem len_noargs : lenB [] = throw (plain "Need a list or a map as first parameter") := rfl
 
-/-- add(list, v) is `append(list, v)` -/
-theorem add_append (r l : Nat) (v : Val) : addB [.list r l, v] = appendVals r l [v] := rfl
+/-- add(list, v) builds a new list (`appendNew`) -/
+theorem add_append (r l : Nat) (v : Val) : addB [.list r l, v] = appendNew r l v := rfl
 theorem add_noList (a v : Val) (rest : List Val) (h : ∀ r l, a ≠ .list r l) :
     addB (a :: v :: rest) = throw (plain "Parameter 1 should be a list") := by
   cases a <;> first | rfl | (exfalso; exact h _ _ rfl)
@@ -139,28 +139,40 @@ theorem add_fewArgs (a : Val) : addB [] = throw (plain "Need a list as first par
   · rfl
   · cases a <;> rfl
 
-/-- `del(list, i)` for a valid index: the elements of the result are the old ones without position `i`; it is the
-    SAME backing array with the tail shifted down (the old slice therefore sees its last element twice), no other
-    array changes -/
-theorem delAt_model (r l i : Nat) (st : St) (hr : r < st.lists.size) (hl : l ≤ (st.backing r).length) (hi : i < l) :
-    ∃ st', runM (delAt r l i) st = (.ok (.list r (l - 1)), st') ∧
-      st'.elems r (l - 1) = (st.elems r l).eraseIdx i ∧
-      st'.backing r = (st.backing r).take i ++ ((st.backing r).take l).drop (i + 1) ++ (st.backing r).drop (l - 1) ∧
-      ∀ q, q ≠ r → st'.backing q = st.backing q := by
-  refine ⟨{ st with lists := st.lists.setIfInBounds r ((st.backing r).take i ++ ((st.backing r).take l).drop (i + 1) ++ (st.backing r).drop (l - 1)) }, ?_, ?_, ?_, ?_⟩
-  · unfold delAt
-    rw [runM_bind, getBacking_run]
-    simp only
-    rw [runM_bind, setBacking_run]
-    rfl
-  · simp only [St.elems, backing_set_same st r _ hr]
-    have h1 : ((st.backing r).take i ++ ((st.backing r).take l).drop (i + 1)).length = l - 1 := by
-      simp; omega
-    rw [List.take_append_of_le_length (by omega), List.take_of_length_le (by omega)]
-    rw [List.eraseIdx_eq_take_drop_succ, List.take_take]
-    simp [Nat.min_eq_left (Nat.le_of_lt hi)]
-  · exact backing_set_same st r _ hr
-  · intro q hq; exact backing_set_other st r q _ hq
+/-- what a builtin that builds a NEW list leaves: the result is the new cell `st.lists.size` holding exactly `xs`
+    (capacity = length), and NO existing backing array changes — so neither the argument nor any alias of it -/
+def NewList (st st' : St) (res : Val) (xs : List Val) : Prop :=
+  res = .list st.lists.size xs.length ∧ st'.elems st.lists.size xs.length = xs ∧
+  st'.backing st.lists.size = xs ∧ ∀ q, q < st.lists.size → st'.backing q = st.backing q
+
+theorem newListExact_run (xs : List Val) (st : St) :
+    runM (newListExact xs) st = (.ok (.list st.lists.size xs.length), { st with lists := st.lists.push xs }) := rfl
+
+theorem newList_push (st : St) (xs : List Val) :
+    NewList st { st with lists := st.lists.push xs } (.list st.lists.size xs.length) xs :=
+  ⟨rfl, by simp [St.elems, backing_push_new], backing_push_new st xs, fun q hq => backing_push_old st q xs (Nat.ne_of_lt hq)⟩
+
+/-- `del(list, i)` (repaired): a new list = the old elements without position `i` -/
+theorem delAt_model (r l i : Nat) (st : St) :
+    ∃ st', runM (delAt r l i) st = (.ok (.list st.lists.size ((st.elems r l).take i ++ (st.elems r l).drop (i + 1)).length), st') ∧
+      NewList st st' (.list st.lists.size ((st.elems r l).take i ++ (st.elems r l).drop (i + 1)).length)
+        ((st.elems r l).eraseIdx i) := by
+  refine ⟨{ st with lists := st.lists.push ((st.elems r l).take i ++ (st.elems r l).drop (i + 1)) }, rfl, ?_⟩
+  rw [List.eraseIdx_eq_take_drop_succ]
+  exact newList_push st _
+
+/-- `add(list, v)` (repaired): a new list = the old elements followed by `v` -/
+theorem appendNew_model (r l : Nat) (v : Val) (st : St) :
+    ∃ st', runM (appendNew r l v) st = (.ok (.list st.lists.size (st.elems r l ++ [v]).length), st') ∧
+      NewList st st' (.list st.lists.size (st.elems r l ++ [v]).length) (st.elems r l ++ [v]) :=
+  ⟨_, rfl, newList_push st _⟩
+
+/-- `add(list, v, i)` (repaired): a new list = the old elements with `v` inserted before position `i` -/
+theorem insertAt_model (r l i : Nat) (v : Val) (st : St) :
+    ∃ st', runM (insertAt r l v i) st = (.ok (.list st.lists.size ((st.elems r l).take i ++ [v] ++ (st.elems r l).drop i).length), st') ∧
+      NewList st st' (.list st.lists.size ((st.elems r l).take i ++ [v] ++ (st.elems r l).drop i).length)
+        ((st.elems r l).take i ++ [v] ++ (st.elems r l).drop i) :=
+  ⟨_, rfl, newList_push st _⟩
 
 /-- `del(list, k)`: index check — a number outside `0 ≤ i < len` is the error -/
 theorem del_list_run (r l : Nat) (x : Float) (i : Int) (st : St) (hi : runM (goInt x) st = (.ok i, st)) :
@@ -174,10 +186,11 @@ theorem del_list_run (r l : Nat) (x : Float) (i : Int) (st : St) (hi : runM (goI
   simp only
   split <;> rfl
 
-/-- `del(map, k)` removes the entry whose key is the STRING form of `k` (number keys stay: sic) -/
+/-- `del(map, k)` (repaired) removes the entry under `delKeyOf`: an existing NUMBER key when the string form of `k`
+    is a number, else the string form — the key reads and writes choose (`fieldKey`) -/
 theorem del_map_run (r : Nat) (k : Val) (key : List Nat) (st : St) (hk : runM (sprint k) st = (.ok key, st)) :
     runM (delB [.map r, k]) st =
-      (.ok (.map r), { st with maps := st.maps.setIfInBounds r ((st.entries r).filter fun p => !(keyEq p.1 (.str key))) }) := by
+      (.ok (.map r), { st with maps := st.maps.setIfInBounds r (List.filter (fun p => !(keyEq p.1 (delKeyOf (st.entries r) key))) (st.entries r)) }) := by
   unfold delB
   rw [runM_bind, hk]
   simp only
@@ -185,6 +198,18 @@ theorem del_map_run (r : Nat) (k : Val) (key : List Nat) (st : St) (hk : runM (s
   simp only
   rw [runM_bind, setMap_run]
   rfl
+
+/-- after `del(map, k)` the key is gone: a lookup of the removed key finds nothing (keys on which `keyEq` is an
+    equivalence: every key but NaN; here: whenever no remaining entry matches) -/
+theorem mapLookup_filter_removed (kvs : List (Val × Val)) (dk : Val) :
+    mapLookup (kvs.filter fun p => !(keyEq p.1 dk)) dk = none := by
+  unfold mapLookup
+  have : (kvs.filter fun p => !(keyEq p.1 dk)).find? (fun p => keyEq p.1 dk) = none := by
+    rw [List.find?_eq_none]
+    intro p hp
+    simp only [List.mem_filter, Bool.not_eq_eq_eq_not, Bool.not_true] at hp
+    simp [hp.2]
+  rw [this]; rfl
 
 theorem del_badArgs : delB [] = throw (plain "Need a list or a map as first parameter and an index or key as second parameter") := rfl
 
@@ -211,76 +236,6 @@ theorem elems_length (st : St) (r l : Nat) (hl : l ≤ (st.backing r).length) : 
 
 theorem take_prefix_exact (x rest : List Val) (n : Nat) (h : x.length = n) : (x ++ rest).take n = x := by
   rw [← h]; exact List.take_left'  rfl
-
-/-- `add(list, v, i)` with `0 ≤ i ≤ len` against the list model: the old elements with `v` inserted before
-    position `i`.  Like `append` it stays in the SAME backing array when the capacity suffices — then the tail from
-    `i` on is shifted in place, so only aliases of length ≤ `i` keep their elements (capacity unchanged) — or moves
-    to a NEW array, leaving the old array and all its aliases unchanged.  No other array changes. -/
-theorem insertAt_model (r l i : Nat) (v : Val) (st st' : St) (res : Val)
-    (hr : r < st.lists.size) (hl : l ≤ (st.backing r).length) (hi : i ≤ l)
-    (h : runM (insertAt r l v i) st = (.ok res, st')) :
-    ∃ r', res = .list r' (l + 1) ∧
-      st'.elems r' (l + 1) = (st.elems r l).take i ++ [v] ++ (st.elems r l).drop i ∧
-      (∀ q, q ≠ r' → st'.backing q = st.backing q) ∧
-      ((r' = r ∧ (st'.backing r).length = (st.backing r).length ∧ ∀ l2, l2 ≤ i → st'.elems r l2 = st.elems r l2) ∨
-       (r' = st.lists.size ∧ ∀ l2, st'.elems r l2 = st.elems r l2)) := by
-  unfold insertAt at h
-  rw [runM_bind] at h
-  cases ha : runM (appendVals r l [Val.num 0]) st with
-  | mk ra s1 =>
-    rw [ha] at h
-    cases ra with
-    | error e => simp at h
-    | ok x =>
-      obtain ⟨r', hx, hel, hoth, hcase⟩ := append_model r l [Val.num 0] st s1 x hr hl ha
-      subst hx
-      have hb := append_inBounds r l [Val.num 0] st s1 r' _ hr ha
-      simp only [List.length_cons, List.length_nil, Nat.zero_add] at h hel
-      rw [runM_bind, getBacking_run] at h
-      simp only at h
-      rw [runM_bind, setBacking_run] at h
-      simp only [runM_pure] at h
-      injection h with h1 h2; injection h1 with h1; subst h1; subst h2
-      have hold : (st.elems r l).length = l := elems_length st r l hl
-      have hcur : (s1.backing r').take (l + 1) = st.elems r l ++ [Val.num 0] := hel
-      have hblen : l + 1 ≤ (s1.backing r').length := by
-        have : ((s1.backing r').take (l + 1)).length = l + 1 := by rw [hcur]; simp [hold]
-        simp at this; omega
-      have h1 : ((s1.backing r').take (l + 1)).take i = (st.elems r l).take i := by
-        rw [hcur, List.take_append_of_le_length (by omega)]
-      have h2 : (((s1.backing r').take (l + 1)).drop i).take (l + 1 - i - 1) = (st.elems r l).drop i := by
-        rw [hcur, List.drop_append_of_le_length (by omega)]
-        apply take_prefix_exact
-        simp [hold]; omega
-      have hnew : ({ s1 with lists := s1.lists.setIfInBounds r' (((s1.backing r').take (l + 1)).take i ++ [v] ++
-          (((s1.backing r').take (l + 1)).drop i).take (l + 1 - i - 1) ++ (s1.backing r').drop (l + 1)) } : St).backing r' =
-          ((st.elems r l).take i ++ [v] ++ (st.elems r l).drop i) ++ (s1.backing r').drop (l + 1) := by
-        rw [backing_set_same s1 r' _ hb.1, h1, h2]
-      have hlen3 : ((st.elems r l).take i ++ [v] ++ (st.elems r l).drop i).length = l + 1 := by
-        simp [hold]; omega
-      refine ⟨r', rfl, ?_, ?_, ?_⟩
-      · simp only [St.elems] at hnew ⊢
-        rw [hnew]
-        exact take_prefix_exact _ _ _ hlen3
-      · intro q hq
-        rw [backing_set_other s1 r' q _ hq]; exact hoth q hq
-      · rcases hcase with ⟨e, hlen, _⟩ | ⟨e, hal⟩
-        · left
-          subst e
-          refine ⟨rfl, ?_, ?_⟩
-          · rw [hnew]; simp [hold]; omega
-          · intro l2 hl2
-            simp only [St.elems] at hnew ⊢
-            rw [hnew, List.append_assoc, List.append_assoc, List.take_append_of_le_length (by simp [hold]; omega), List.take_take]
-            simp only [St.elems, List.take_take]
-            congr 1; omega
-        · right
-          refine ⟨e, ?_⟩
-          intro l2
-          have hne : r ≠ r' := by rw [e]; exact Nat.ne_of_lt hr
-          simp only [St.elems]
-          rw [backing_set_other s1 r' r _ hne]
-          exact hal l2
 
 /-- `add(l, v, i)`: index check and insertion -/
 theorem add_insert_run (r l : Nat) (v : Val) (x : Float) (i : Int) (st : St) (hi : runM (goInt x) st = (.ok i, st))
@@ -382,5 +337,26 @@ theorem concat_fewArgs (args : List Val) (st : St) (h : args.length < 2) :
 theorem concat_notList (a : Val) (rest : List Val) (cur : Val) (h : ∀ r l, a ≠ .list r l) :
     concatGo (a :: rest) cur = throw (plain "Parameter 1 should be a list") := by
   cases a <;> first | rfl | (exfalso; exact h _ _ rfl)
+
+/-! ### the code BEFORE the add / del repair (negative witnesses only) -/
+
+/-- del(list, i) before the repair: `append(argList[:i], argList[i+1:]...)` shifts inside the argument's array -/
+def delAtOld (r l i : Nat) : M Val := do
+  let b ← getBacking r
+  setBacking r (b.take i ++ (b.take l).drop (i + 1) ++ b.drop (l - 1))
+  pure (.list r (l - 1))
+
+/-- add(list, v, i) before the repair: `append(list, 0); copy(list[i+1:], list[i:]); list[i] = v` in place -/
+def insertAtOld (r l : Nat) (v : Val) (i : Nat) : M Val := do
+  match ← appendVals r l [.num 0] with
+  | .list r' l' =>
+    let b ← getBacking r'
+    let cur := b.take l'
+    setBacking r' (cur.take i ++ [v] ++ (cur.drop i).take (l' - i - 1) ++ b.drop l')
+    pure (.list r' l')
+  | x => pure x
+
+/-- del(map, k) before the repair: always the string form of `k` -/
+def delKeyOld (key : List Nat) : Val := .str key
 
 end Ecal.Ev
